@@ -1081,6 +1081,11 @@ main(int argc, char **argv)
 	static const int P4[] = { L_SURVEY0 + 1, RESP(0, K_CURC), RESP(1, K_CURC),
 		L_SURVEY0, L_ADV99, L_SURVEY0 + 1 };
 	//   ctx: two queued responses discarded by a re-survey; sock at D-1
+	static const int P5[] = { L_SURVEY0, L_RECVP0, L_ADV99, L_ADV1, L_ADV1, L_SURVEY0 };
+	static const int P6[] = { L_SURVEY0 + 1, L_RECVP0 + 1, L_ADV99, L_ADV1, L_ADV1,
+		L_SURVEY0 + 1 };
+	//   a receive was still pending when its survey expired (it ended with
+	//   ETIMEDOUT), then a new survey: the expired id is the "stale" one
 	struct {
 		const char *name;
 		const int  *p;
@@ -1091,6 +1096,8 @@ main(int argc, char **argv)
 		{ "surv-P2", P2, 4, 2, 3, 4 },
 		{ "surv-P3", P3, 5, 2, 3, 4 },
 		{ "surv-P4", P4, 6, 2, 3, 0 },
+		{ "surv-P5", P5, 6, 2, 3, 0 },
+		{ "surv-P6", P6, 6, 2, 3, 0 },
 	};
 	char     name[40];
 	unsigned nsc = sizeof(SC) / sizeof(SC[0]);
@@ -1138,8 +1145,8 @@ main(int argc, char **argv)
 	    "%d letters: survey(sock|ctx) recv(sock|ctx, non-blocking) "
 	    "recvaio(sock|ctx, left pending) respond(p0|p1, id in {current sock, "
 	    "current ctx, last superseded, one-bit-off unknown, high bit "
-	    "cleared}) adv(+99) adv(+1); SURVEYTIME=%d virtual ms; 5 start "
-	    "states (initial + 4 seeded prefixes)",
+	    "cleared}) adv(+99) adv(+1); SURVEYTIME=%d virtual ms; 7 start "
+	    "states (initial + 6 seeded prefixes)",
 	    L_NSURV, SURVEYTIME);
 	vx_note("alphabet-respondent",
 	    "%d letters: p0|p1.survey(1|2 backtrace words) ctx0|ctx1.recv (aio, "
